@@ -677,7 +677,10 @@ func ruleAggregateShape(w *World, r *Report, rule string) {
 						continue
 					}
 					xs, ys := newExprCtx(w).expr(bo.X), newExprCtx(w).expr(bo.Y)
-					isElem := func(s string) bool { return strings.HasPrefix(s, "p1[(i") }
+					// an element of the value list, by a range or index loop, over the list or over list[1:] (the first
+					// element is the initial accumulator)
+					reElem := regexp.MustCompile(`^p1(\[1:\])?\[(\(i\d+ \+ 1\)|i\d+)\]$`)
+					isElem := func(s string) bool { return reElem.MatchString(s) }
 					want := token.GTR
 					if names[k] == "min" {
 						want = token.LSS
@@ -712,7 +715,7 @@ func ruleAggregateShape(w *World, r *Report, rule string) {
 	okSum := len(rets) == 1
 	if okSum {
 		got := newExprCtx(w).expr(rets[0].Results[0])
-		okSum = got == "phi((@ +:float64 p0[(i0 + 1)])|0)"
+		okSum = regexp.MustCompile(`^phi\(\(@ \+:float64 p0\[(\(i\d+ \+ 1\)|i\d+)\]\)\|0\)$`).MatchString(got) || regexp.MustCompile(`^phi\(\(p0\[(\(i\d+ \+ 1\)|i\d+)\] \+:float64 @\)\|0\)$`).MatchString(got)
 		r.Check(okSum, rule, "sum", w.instrPos(rets[0]), "0 plus every element", "sum does not start at 0 and add every element: "+got)
 	}
 }
